@@ -171,7 +171,7 @@ pub fn one_history(id: u64, seed: u64, max_ops: usize, big: bool) {
         match c {
             0..=39 => {
                 // sizes around the interesting thresholds: remaining space, capacity, 2x, 3x capacity
-                let rem = cap - len_now;
+                let rem = cap.saturating_sub(len_now);
                 let n = match rng.gen_range(0..10) {
                     0 => 0,
                     1 => rem,
